@@ -118,24 +118,35 @@ def _run_units(units, repo, verif, work, tier, jobs=None):
             cap = config.UNITS[u].get('max_jobs_thorough')
             if cap:
                 jobs = min(jobs, cap)
-    cmd = ['cargo', 'kani', '-Z', 'function-contracts', '-Z', 'stubbing', '--output-format', 'terse', '-j', str(jobs), '--exact']
+    base_cmd = ['cargo', 'kani', '-Z', 'function-contracts', '-Z', 'stubbing', '--output-format', 'terse', '-j', str(jobs), '--exact']
+    cmd = list(base_cmd)
     for u, h in live:
         cmd += ['--harness', full_name(u, h['name'])]
     env = dict(os.environ)
     env['CARGO_NET_OFFLINE'] = 'true'
     env['CARGO_TARGET_DIR'] = os.path.join(work, 'kani-target')
-    # one cargo-kani invocation runs all harnesses on `jobs` workers: allow the longest harness plus the queueing time
-    tmo = [h.get('timeout', 300) for _, h in live]
-    timeout = max(tmo) + (sum(tmo) // max(1, jobs) if len(tmo) > jobs else 0) + 240
-    timeout = int(os.environ.get('VERIF_KANI_TIMEOUT', timeout))
-    p = subprocess.Popen(cmd, cwd=scratch, env=env, stdout=subprocess.PIPE, stderr=subprocess.STDOUT, text=True, start_new_session=True)
+    # kani-driver keeps growing with the number of harnesses of one invocation (25 GB after a dozen large ones here):
+    # run the harnesses in batches, one cargo-kani invocation per batch (the build is shared through the target dir)
+    batch = int(os.environ.get('VERIF_KANI_BATCH', '32' if tier == 'quick' else '6'))
+    out = ''
     timed_out = False
-    try:
-        out, _ = p.communicate(timeout=timeout)
-    except subprocess.TimeoutExpired:
-        timed_out = True
-        kill_tree(p)
-        out, _ = p.communicate()
+    for b0 in range(0, len(live), batch):
+        part = live[b0:b0 + batch]
+        bcmd = list(base_cmd)
+        for u, h in part:
+            bcmd += ['--harness', full_name(u, h['name'])]
+        # allow the longest harness plus the queueing time
+        tmo = [h.get('timeout', 300) for _, h in part]
+        timeout = max(tmo) + (sum(tmo) // max(1, jobs) if len(tmo) > jobs else 0) + 240
+        timeout = int(os.environ.get('VERIF_KANI_TIMEOUT', timeout))
+        p = subprocess.Popen(bcmd, cwd=scratch, env=env, stdout=subprocess.PIPE, stderr=subprocess.STDOUT, text=True, start_new_session=True)
+        try:
+            o, _ = p.communicate(timeout=timeout)
+        except subprocess.TimeoutExpired:
+            timed_out = True
+            kill_tree(p)
+            o, _ = p.communicate()
+        out += o + '\n'
     open(os.path.join(work, 'kani.log'), 'w').write(out)
     parsed = parse_kani(out)
     compile_error = None
